@@ -65,6 +65,11 @@ pub struct ScriptIface {
 /// shape for the other suites that build it.)
 pub const SEGMENT_WISE_IFACE: &str = "up.seg";
 
+/// The interface registered under this name has a line-wise upgraded handler: it reads to EOF, echoes
+/// the complete lines and RETURNS the incomplete last line as unprocessed bytes ("store all bytes for
+/// the next call", as examples/ping documents).
+pub const LINE_WISE_IFACE: &str = "up.line";
+
 pub fn leak(s: &str) -> &'static str {
     Box::leak(s.to_string().into_boxed_str())
 }
@@ -87,6 +92,17 @@ impl varlink::Interface for ScriptIface {
             let _ = bufreader.read_to_end(&mut v);
         }
         self.seen.lock().unwrap().extend_from_slice(&v);
+        if self.name == LINE_WISE_IFACE {
+            let cut = v.iter().rposition(|b| *b == b'\n').map(|i| i + 1).unwrap_or(0);
+            let rest = v.split_off(cut);
+            if self.echo_up {
+                use std::io::Write;
+                let _ = _call.writer.write_all(b"UP:");
+                let _ = _call.writer.write_all(&v);
+                let _ = _call.writer.flush();
+            }
+            return Ok(rest);
+        }
         if self.echo_up {
             use std::io::Write;
             let _ = _call.writer.write_all(b"UP:");
@@ -526,6 +542,7 @@ pub fn socket_configs() -> Vec<SvcCfg> {
         }
     }
     v.push(c);
+    v.push(svc_cfg("v5", &[(LINE_WISE_IFACE, "line-wise upgraded handler"), ("org.example.s", "d")], false));
     v
 }
 
